@@ -4,6 +4,8 @@
   wire_py.py serve <dir of message.py>       one long-lived process, requests on stdin, replies on stdout:
       U <hex>                    Message.SetFromFlattenedBuffer(bytes); GetFlattenedBuffer()      -> K <hex> | E <why>
       B M <what> <nfields> ...   build the content natively with message.py's Put* calls, flatten -> K <hex> | E <why>
+      D <v> M <what> ...         the same content through message.py's own mutating calls, detour v = 1..5 (see put / build)
+      H <what> ... / S <call>    a heap of live Message objects and one call of a WireHeap history on it -> K <size> <hex> per object
       Q                          quit
   wire_py.py echo <dir of message.py>        MessageTransceiverThread accepting on 127.0.0.1; prints "PORT <n>" (or "SKIP <why>"),
                                              sends every Message it receives straight back; ends when stdin is closed.
@@ -16,19 +18,61 @@ def unhex(h): return b"" if h == "-" else binascii.unhexlify(h)
 def hexs(b): return binascii.hexlify(b).decode() if b else "-"
 
 
+DETOUR = [0]     # D command: 0 = every field is put once; 1..5 = the content is reached through message.py's own mutating calls:
+                 #  1 junk of another type / count put under the name first, then PutFieldContents over the existing name
+                 #  2 junk, RemoveName, put          3 one item put, the others appended IN PLACE to the list GetFieldContents() returns
+                 #  4 sub-Messages are put EMPTY and filled afterwards through the reference the parent holds; what codes assigned afterwards
+                 #  5 = 3 + 4, and FlattenedSize() / GetFlattenedBuffer() are called in the middle (a size computed early must not stick)
+
+
+def put(m, message, name, tc, vals):
+    d = DETOUR[0]
+    if d in (1, 2):
+        if tc == message.B_STRING_TYPE: m.PutInt32(name, [1, 2, 3])
+        else: m.PutString(name, ["junk", ""])
+        if d == 2: m.RemoveName(name)
+    if d in (3, 5) and isinstance(vals, list) and len(vals) >= 2:
+        m.PutFieldContents(name, tc, [vals[0]])
+        if d == 5: m.FlattenedSize(); m.GetFlattenedBuffer()
+        lst = m.GetFieldContents(name)
+        for x in vals[1:]: lst.append(x)                  # in place, through the returned list
+    else:
+        m.PutFieldContents(name, tc, vals)
+
+
 def build(message, toks):
     if next(toks) != "M": raise ValueError("syntax")
-    m = message.Message(int(next(toks), 16))
+    what = int(next(toks), 16)
+    late = DETOUR[0] in (4, 5)
+    m = message.Message((what ^ 0xFFFFFFFF) if late else what)
     nf = int(next(toks))
+    pending = []
     for _ in range(nf):
         name = unhex(next(toks)).decode("utf-8")            # message.py keeps names as Python text
         tc = int(next(toks), 16); n = int(next(toks))
         if tc == message.B_MESSAGE_TYPE:
-            m.PutMessage(name, [build(message, toks) for _ in range(n)])
+            if late:
+                # the sub-Messages are put empty and filled afterwards, through the very objects the parent holds
+                subs = [message.Message() for _ in range(n)]
+                put(m, message, name, tc, subs)
+                if DETOUR[0] == 5: m.FlattenedSize(); m.GetFlattenedBuffer()
+                for k in range(n):
+                    built = build(message, toks)
+                    held = m.GetFieldContents(name)[k]
+                    held.what = built.what
+                    for fn in built.GetFieldNames(): held.PutFieldContents(fn, built.GetFieldType(fn), built.GetFieldContents(fn))
+            else:
+                put(m, message, name, tc, [build(message, toks) for _ in range(n)])
             continue
         raw = [unhex(next(toks)) for _ in range(n)]
         one = lambda vals: vals[0] if len(vals) == 1 else vals        # a single item may be handed over as such
-        if   tc == message.B_BOOL_TYPE:   m.PutBool(name, one([b[0] != 0 for b in raw]))
+        if DETOUR[0]:
+            conv = {message.B_BOOL_TYPE: lambda b: b[0] != 0, message.B_INT8_TYPE: lambda b: struct.unpack("<b", b)[0], message.B_INT16_TYPE: lambda b: struct.unpack("<h", b)[0],
+                    message.B_INT32_TYPE: lambda b: struct.unpack("<i", b)[0], message.B_INT64_TYPE: lambda b: struct.unpack("<q", b)[0], message.B_FLOAT_TYPE: lambda b: struct.unpack("<f", b)[0],
+                    message.B_DOUBLE_TYPE: lambda b: struct.unpack("<d", b)[0], message.B_POINT_TYPE: lambda b: struct.unpack("<2f", b), message.B_RECT_TYPE: lambda b: struct.unpack("<4f", b),
+                    message.B_STRING_TYPE: lambda b: b.decode("utf-8")}.get(tc, lambda b: b)
+            put(m, message, name, tc, [conv(b) for b in raw])
+        elif tc == message.B_BOOL_TYPE:   m.PutBool(name, one([b[0] != 0 for b in raw]))
         elif tc == message.B_INT8_TYPE:   m.PutInt8(name, one([struct.unpack("<b", b)[0] for b in raw]))
         elif tc == message.B_INT16_TYPE:  m.PutInt16(name, one([struct.unpack("<h", b)[0] for b in raw]))
         elif tc == message.B_INT32_TYPE:  m.PutInt32(name, one([struct.unpack("<i", b)[0] for b in raw]))
@@ -39,10 +83,45 @@ def build(message, toks):
         elif tc == message.B_RECT_TYPE:   m.PutRect(name, [struct.unpack("<4f", b) for b in raw])
         elif tc == message.B_STRING_TYPE: m.PutString(name, one([b.decode("utf-8") for b in raw]))
         else:                             m.PutFieldContents(name, tc, raw)
+    if late: m.what = what
     return m
 
 
+def heap_reply(heap):
+    # after every call every object is sized AND flattened: the transceiver builds its frame header from FlattenedSize() and the body from Flatten()
+    return "K " + " ".join("%d %s" % (m.FlattenedSize(), hexs(m.GetFlattenedBuffer())) for m in heap)
+
+
+def heap_step(message, heap, a):
+    """the calls of WireHeap.tla on live Python objects: items are added / removed IN PLACE in the list the Message holds (the list GetFieldContents()
+    returns), sub-Messages are the very Message objects of the heap (aliases), ShareName = the same list object put into a second Message"""
+    op, o, name, tc, val, i, k = a[0], heap[int(a[1]) - 1], unhex(a[2]).decode("utf-8"), int(a[3], 16), unhex(a[4]), int(a[5]), int(a[6])
+    def item():
+        if op in ("AddRef", "PrependRef"): return heap[k - 1]
+        if tc == message.B_INT16_TYPE: return struct.unpack("<h", val)[0]
+        if tc == message.B_STRING_TYPE: return val.decode("utf-8")
+        return val
+    if op in ("AddRef", "PrependRef"): tc = message.B_MESSAGE_TYPE
+    lst = o.GetFieldContents(name)
+    if op in ("Add", "AddRef", "Prepend", "PrependRef"):
+        if lst is None: o.PutFieldContents(name, tc, [item()])
+        elif o.GetFieldType(name) == tc:
+            if op.startswith("Prepend"): lst.insert(0, item())
+            else: lst.append(item())
+    elif op == "Remove":
+        if lst is not None and i < len(lst):
+            del lst[i]
+            if not lst: o.RemoveName(name)              # the emptied field leaves THIS Message only
+    elif op == "Replace":
+        if lst is not None and o.GetFieldType(name) == tc and i < len(lst): lst[i] = item()
+    elif op == "RemoveName": o.RemoveName(name)
+    elif op == "Share": heap[k - 1].PutFieldContents(name, o.GetFieldType(name), lst)        # the same list object: shared, not copied
+    elif op == "What": o.what = struct.unpack("<L", val)[0]
+    else: raise ValueError("unknown op " + op)
+
+
 def serve(message):
+    heap = []
     out = sys.stdout
     for line in sys.stdin:
         line = line.rstrip("\n")
@@ -54,7 +133,15 @@ def serve(message):
                 m = message.Message()
                 m.SetFromFlattenedBuffer(unhex(rest))
                 out.write("K " + hexs(m.GetFlattenedBuffer()) + "\n")
-            elif cmd == "B":
+            elif cmd == "H":        # H <what hex> ...: a new heap of live Message objects (WireHeap)
+                heap[:] = [message.Message(int(w, 16)) for w in rest.split(" ")]
+                out.write(heap_reply(heap) + "\n")
+            elif cmd == "S":        # S <op> <o> <name hex> <type code> <value hex | -> <i> <k>: one call of a WireHeap history on the live objects
+                heap_step(message, heap, rest.split(" "))
+                out.write(heap_reply(heap) + "\n")
+            elif cmd in ("B", "D"):
+                if cmd == "D": d, _, rest = rest.partition(" "); DETOUR[0] = int(d)
+                else: DETOUR[0] = 0
                 m = build(message, iter(rest.split(" ")))
                 out.write("K " + hexs(m.GetFlattenedBuffer()) + "\n")
             else:
@@ -62,6 +149,10 @@ def serve(message):
         except Exception as ex:
             out.write("E %s: %s\n" % (type(ex).__name__, str(ex)[:200].replace("\n", " ")))
         out.flush()
+
+
+HIST = 0x48495354     # 'HIST': start the resend history (field n = number of frames)
+ACK1 = 0x41434b31     # 'ACK1': the previous frame was received, go on
 
 
 def echo(message):
@@ -75,6 +166,7 @@ def echo(message):
         print("SKIP %s: %s" % (type(ex).__name__, ex)); sys.stdout.flush(); return
     print("PORT %d" % port); sys.stdout.flush()
     done = threading.Event()
+    hist = None
     threading.Thread(target=lambda: (sys.stdin.read(), done.set()), daemon=True).start()
     n = 0
     while not done.is_set():
@@ -82,7 +174,25 @@ def echo(message):
         if ev is None:
             time.sleep(0.0005); continue
         if isinstance(ev, message.Message):
-            t.SendOutgoingMessage(ev); n += 1
+            if ev.what == HIST:
+                # "keep a status Message, update it, resend it": top holds mid holds leaf; every step changes leaf through its own reference (and top's own
+                # counter field) and sends the SAME top object again.  The C++ side acknowledges every frame before the next change is made.
+                leaf = message.Message(3); leaf.PutString("s", ["x0"])
+                mid = message.Message(2); mid.PutMessage("leaf", [leaf]); mid.PutInt8("b", [1, 2])
+                top = message.Message(1); top.PutMessage("mid", [mid]); top.PutInt32("k", [0])
+                hist = [top, leaf, 0, ev.GetFieldItem("n", message.B_INT32_TYPE, 0)]
+                t.SendOutgoingMessage(top)
+            elif ev.what == ACK1 and hist is not None:
+                top, leaf, k, total = hist
+                k += 1; hist[2] = k
+                if k < total:
+                    leaf.GetFieldContents("s").append("x%d" % k * (1 + k % 3))      # in place, through the list the leaf holds
+                    if k % 2: leaf.PutInt64("q", [k] * k)
+                    top.PutInt32("k", [k])
+                    t.SendOutgoingMessage(top)
+                else: hist = None
+            else:
+                t.SendOutgoingMessage(ev); n += 1
     try: t.Destroy()
     except Exception: pass
     print("ECHOED %d" % n); sys.stdout.flush()
